@@ -336,3 +336,437 @@ Section TableOk.
     unfold run. cbn [fold_left]. apply IH. apply step_ok. exact H.
   Qed.
 End TableOk.
+
+(* ------------------------------------------------------------------------------------------- *)
+(* "No slot is attested for or proposed for twice": the invariant behind it, over disciplined
+   histories (the events a running Vouch can see: the clock moves forward, jobs run at or after
+   their slot, the epoch ticker runs in the first slot of an epoch after the one the process
+   started in, the preparation of an epoch runs before that epoch begins). *)
+
+Section NoTwice.
+  Variable shadowed : bool.
+  Variable c : config.
+  Let spe := ct_spe (c_ct c).
+  Hypothesis Hspe : 0 < ct_spe (c_ct c).
+
+  Definition att_slots (st : state) : list N := map fst (st_att_log st).
+  Definition prop_slots (st : state) : list N := map fst (st_prop_log st).
+
+  (* the uint64 slot arithmetic of the next three epochs does not wrap *)
+  Definition bounded (s : N) : Prop := (s / ct_spe (c_ct c) + 3) * ct_spe (c_ct c) < two64.
+
+  Definition att_step (cur : N) (t t' : table) : Prop :=
+    forall s, tget t' (JAtt s) <> None -> tget t (JAtt s) <> None \/ cur < s.
+  Definition prop_step (cur E : N) (t t' : table) : Prop :=
+    forall s, tget t' (JProp s) <> None -> tget t (JProp s) <> None \/ (cur < s /\ s / ct_spe (c_ct c) <= E).
+
+  Lemma att_step_refl : forall cur t, att_step cur t t.
+  Proof. intros cur t s H. left. exact H. Qed.
+  Lemma prop_step_refl : forall cur E t, prop_step cur E t t.
+  Proof. intros cur E t s H. left. exact H. Qed.
+  Lemma att_step_trans : forall cur t1 t2 t3, att_step cur t1 t2 -> att_step cur t2 t3 -> att_step cur t1 t3.
+  Proof. intros cur t1 t2 t3 H1 H2 s H. destruct (H2 s H) as [H'|H']; [apply H1; exact H' | right; exact H']. Qed.
+  Lemma prop_step_trans : forall cur E t1 t2 t3, prop_step cur E t1 t2 -> prop_step cur E t2 t3 -> prop_step cur E t1 t3.
+  Proof. intros cur E t1 t2 t3 H1 H2 s H. destruct (H2 s H) as [H'|H']; [apply H1; exact H' | right; exact H']. Qed.
+  Lemma att_step_same : forall cur t t', (forall s, tget t' (JAtt s) = tget t (JAtt s)) -> att_step cur t t'.
+  Proof. intros cur t t' E s H. left. rewrite <- E. exact H. Qed.
+  Lemma prop_step_same : forall cur E t t', (forall s, tget t' (JProp s) = tget t (JProp s)) -> prop_step cur E t t'.
+  Proof. intros cur E t t' Eq s H. left. rewrite <- Eq. exact H. Qed.
+
+  (* ----- arithmetic ----- *)
+  Lemma bounded_first : forall cur k, bounded cur -> k <= 3 ->
+    first_slot_of_epoch (c_ct c) (cur / ct_spe (c_ct c) + k) = (cur / ct_spe (c_ct c) + k) * ct_spe (c_ct c).
+  Proof.
+    intros cur k B K. unfold first_slot_of_epoch, mul64. apply wrap64_small.
+    unfold bounded in B. nia.
+  Qed.
+
+  Lemma bounded_add64 : forall cur k, bounded cur -> k <= 3 ->
+    add64 (cur / ct_spe (c_ct c)) k = cur / ct_spe (c_ct c) + k.
+  Proof.
+    intros cur k B K. unfold add64. apply wrap64_small. unfold bounded in B. nia.
+  Qed.
+
+  Lemma in_epoch_cur_epoch : forall cur s, bounded cur ->
+    in_epoch c (cur / ct_spe (c_ct c)) s = true -> s / ct_spe (c_ct c) <= cur / ct_spe (c_ct c).
+  Proof.
+    intros cur s B H. unfold in_epoch in H.
+    rewrite (bounded_add64 cur 1 B) in H by lia.
+    rewrite (bounded_first cur 1 B) in H by lia.
+    assert (Hs : s < (cur / ct_spe (c_ct c) + 1) * ct_spe (c_ct c)).
+    { unfold sub64 in H. destruct (1 <=? (cur / ct_spe (c_ct c) + 1) * ct_spe (c_ct c)) eqn:E; [lia | nia]. }
+    assert (s / ct_spe (c_ct c) < cur / ct_spe (c_ct c) + 1); [|lia].
+    apply N.div_lt_upper_bound; [lia | nia].
+  Qed.
+
+  Lemma in_epoch_ge : forall e s, e * ct_spe (c_ct c) < two64 ->
+    in_epoch c e s = true -> e * ct_spe (c_ct c) <= s.
+  Proof.
+    intros e s B H. unfold in_epoch in H. unfold first_slot_of_epoch, mul64 in H.
+    rewrite (wrap64_small (e * ct_spe (c_ct c))) in H by exact B. lia.
+  Qed.
+
+  Lemma div_lt_mul : forall cur e, cur / ct_spe (c_ct c) < e -> cur < e * ct_spe (c_ct c).
+  Proof.
+    intros cur e H.
+    pose proof (N.div_mod cur (ct_spe (c_ct c)) ltac:(lia)) as Hdm.
+    pose proof (N.mod_lt cur (ct_spe (c_ct c)) ltac:(lia)) as Hlt. nia.
+  Qed.
+
+  (* ----- steps of the table transformers ----- *)
+  Lemma tremove_sub : forall t m n, tget (tremove t m) n <> None -> tget t n <> None.
+  Proof. intros t m n H. rewrite tget_tremove in H. destruct (jname_eqb m n); [contradiction | exact H]. Qed.
+
+  Lemma sched_att_step_nc : forall cur hv ds ep t, att_step cur t (sched_att c cur hv ds ep true t).
+  Proof.
+    intros cur hv ds ep t s H. apply sched_att_new in H. destruct H as [H|[H _]]; [left; exact H|].
+    right. apply due_spec in H. destruct H as [H1 H2].
+    destruct (N.eq_dec s cur) as [->|Hne]; [specialize (H2 eq_refl); discriminate | lia].
+  Qed.
+
+  Lemma sched_att_step_future : forall cur hv ds ep nc t,
+    ep * ct_spe (c_ct c) < two64 -> cur / ct_spe (c_ct c) < ep ->
+    att_step cur t (sched_att c cur hv ds ep nc t).
+  Proof.
+    intros cur hv ds ep nc t B E s H. apply sched_att_new in H. destruct H as [H|[_ H]]; [left; exact H|].
+    right. apply in_epoch_ge in H; [|exact B]. pose proof (div_lt_mul cur ep E). lia.
+  Qed.
+
+  Lemma sched_prop_step_nc : forall cur hv ds t, bounded cur ->
+    prop_step cur (cur / ct_spe (c_ct c)) t (sched_prop c cur hv ds (cur / ct_spe (c_ct c)) true t).
+  Proof.
+    intros cur hv ds t B s H. apply sched_prop_new in H. destruct H as [H|[H H']]; [left; exact H|].
+    right. apply due_spec in H. destruct H as [H1 H2]. split.
+    - destruct (N.eq_dec s cur) as [->|Hne]; [specialize (H2 eq_refl); discriminate | lia].
+    - apply in_epoch_cur_epoch; assumption.
+  Qed.
+
+  Lemma refresh_prop_step : forall cur e t, bounded cur ->
+    prop_step cur (cur / ct_spe (c_ct c)) t (refresh_prop c cur e (cur / ct_spe (c_ct c)) t).
+  Proof.
+    intros cur e t B s H. apply refresh_prop_new in H. destruct H as [H|[H H']]; [left; exact H|].
+    right. split; [exact H | apply in_epoch_cur_epoch; assumption].
+  Qed.
+
+  (* ----- the invariant ----- *)
+  Record inv (g : N) (st : state) : Prop := {
+    i_a1 : forall s, In s (att_slots st) -> s <= st_cur st;
+    i_a2 : forall s, tget (st_jobs st) (JAtt s) <> None -> ~ In s (att_slots st);
+    i_an : NoDup (att_slots st);
+    i_p1 : forall s, In s (prop_slots st) -> s <= st_cur st;
+    i_p2 : forall s, tget (st_jobs st) (JProp s) <> None -> ~ In s (prop_slots st);
+    i_pn : NoDup (prop_slots st);
+    i_p4 : forall s, tget (st_jobs st) (JProp s) <> None -> s / ct_spe (c_ct c) <= st_cur st / ct_spe (c_ct c);
+    i_p3 : In (st_cur st) (prop_slots st) \/ tget (st_jobs st) (JProp (st_cur st)) <> None ->
+           st_cur st <> (st_cur st / ct_spe (c_ct c)) * ct_spe (c_ct c) \/
+           (Z.of_N (st_cur st / ct_spe (c_ct c)) <= st_tick st)%Z \/
+           st_cur st / ct_spe (c_ct c) <= g;
+    i_b : bounded (st_cur st)
+  }.
+
+  Lemma inv_update : forall g st st',
+    inv g st -> st_cur st' = st_cur st -> st_att_log st' = st_att_log st -> st_prop_log st' = st_prop_log st ->
+    st_tick st' = st_tick st ->
+    att_step (st_cur st) (st_jobs st) (st_jobs st') ->
+    prop_step (st_cur st) (st_cur st / ct_spe (c_ct c)) (st_jobs st) (st_jobs st') ->
+    inv g st'.
+  Proof.
+    intros g st st' I Ec Ea Ep Et SA SP. destruct I as [a1 a2 an p1 p2 pn p4 p3 b].
+    constructor; unfold att_slots, prop_slots in *; rewrite ?Ec, ?Ea, ?Ep, ?Et; try assumption.
+    - intros s H. destruct (SA s H) as [H'|H']; [apply a2; exact H'|].
+      intro Hin. apply a1 in Hin. lia.
+    - intros s H. destruct (SP s H) as [H'|[H' _]]; [apply p2; exact H'|].
+      intro Hin. apply p1 in Hin. lia.
+    - intros s H. destruct (SP s H) as [H'|[_ H']]; [apply p4; exact H' | exact H'].
+    - intros [H|H]; [apply p3; left; exact H|].
+      destruct (SP _ H) as [H'|[H' _]]; [apply p3; right; exact H' | lia].
+  Qed.
+
+  Lemma NoDup_snocN : forall (l : list N) x, NoDup l -> ~ In x l -> NoDup (l ++ [x]).
+  Proof. intros l x H1 H2. apply NoDup_snoc; assumption. Qed.
+
+  Lemma inv_run_att : forall g st s, inv g st -> s <= st_cur st -> inv g (run_if_exists st (JAtt s)).
+  Proof.
+    intros g st s I Hs. unfold run_if_exists. destruct (tget (st_jobs st) (JAtt s)) as [j|] eqn:G; [|exact I].
+    destruct I as [a1 a2 an p1 p2 pn p4 p3 b].
+    assert (Hnot : ~ In s (att_slots st)) by (apply a2; rewrite G; discriminate).
+    constructor; unfold att_slots, prop_slots in *; cbn; rewrite ?map_app; cbn; try assumption.
+    - intros s' H. apply in_app_or in H. destruct H as [H|[<-|[]]]; [apply a1; exact H | exact Hs].
+    - intros s' H. rewrite tget_tremove in H. cbn [jname_eqb] in H.
+      destruct (s =? s') eqn:E; [contradiction|]. apply N.eqb_neq in E.
+      intro Hin. apply in_app_or in Hin. destruct Hin as [Hin|[Hin|[]]]; [apply (a2 s' H); exact Hin | contradiction].
+    - apply NoDup_snocN; assumption.
+    - intros s' H. rewrite tget_tremove in H. cbn [jname_eqb] in H. apply p2. exact H.
+    - intros s' H. rewrite tget_tremove in H. cbn [jname_eqb] in H. apply p4. exact H.
+    - intros [H|H]; [apply p3; left; exact H|].
+      rewrite tget_tremove in H. cbn [jname_eqb] in H. apply p3. right. exact H.
+  Qed.
+
+  Lemma inv_run_prop : forall g st s, inv g st -> s <= st_cur st -> inv g (run_if_exists st (JProp s)).
+  Proof.
+    intros g st s I Hs. unfold run_if_exists. destruct (tget (st_jobs st) (JProp s)) as [j|] eqn:G; [|exact I].
+    pose proof I as I0. destruct I as [a1 a2 an p1 p2 pn p4 p3 b].
+    assert (Hnot : ~ In s (prop_slots st)) by (apply p2; rewrite G; discriminate).
+    constructor; unfold att_slots, prop_slots in *; cbn; rewrite ?map_app; cbn; try assumption.
+    - intros s' H. rewrite tget_tremove in H. cbn [jname_eqb] in H. apply a2. exact H.
+    - intros s' H. apply in_app_or in H. destruct H as [H|[<-|[]]]; [apply p1; exact H | exact Hs].
+    - intros s' H. rewrite tget_tremove in H. cbn [jname_eqb] in H.
+      destruct (s =? s') eqn:E; [contradiction|]. apply N.eqb_neq in E.
+      intro Hin. apply in_app_or in Hin. destruct Hin as [Hin|[Hin|[]]]; [apply (p2 s' H); exact Hin | contradiction].
+    - apply NoDup_snocN; assumption.
+    - intros s' H. rewrite tget_tremove in H. cbn [jname_eqb] in H.
+      destruct (s =? s'); [contradiction|]. apply p4. exact H.
+    - intros [H|H].
+      + apply in_app_or in H. destruct H as [H|[H|[]]]; [apply p3; left; exact H|].
+        subst s. apply p3. right. rewrite G. discriminate.
+      + rewrite tget_tremove in H. cbn [jname_eqb] in H.
+        destruct (s =? st_cur st); [contradiction|]. apply p3. right. exact H.
+  Qed.
+  (* ----- the discipline of a history ----- *)
+  Definition op_ok (g : N) (st : state) (o : op) : Prop :=
+    match o with
+    | Advance s => st_cur st <= s /\ bounded s
+    | SetEnv _ => True
+    | Start => True
+    | Tick => g < st_cur st / ct_spe (c_ct c) /\ st_cur st = (st_cur st / ct_spe (c_ct c)) * ct_spe (c_ct c)
+    | Head _ _ _ => True
+    | Fire (JAtt s) _ | Fire (JProp s) _ | Fire (JEarly s) _ => s <= st_cur st
+    | Fire (JPrep e) _ => st_cur st / ct_spe (c_ct c) < e /\ e * ct_spe (c_ct c) < two64
+    | Fire (JSync _) _ => True
+    | RefreshAtt _ => True
+    | RefreshProp ep => ep = st_cur st / ct_spe (c_ct c)
+    | SchedAtt _ _ | SchedProp _ _ | SchedSync _ _ | RefreshSync _ => False
+    end.
+
+  (* ghost: the epoch in which the running process started *)
+  Definition ghost (g : N) (st : state) (o : op) : N :=
+    match o with Start => st_cur st / ct_spe (c_ct c) | _ => g end.
+
+  Fixpoint hist_ok (g : N) (st : state) (ops : list op) : Prop :=
+    match ops with
+    | [] => True
+    | o :: ops' => op_ok g st o /\ hist_ok (ghost g st o) (step shadowed c st o) ops'
+    end.
+
+  Fixpoint ghost_run (g : N) (st : state) (ops : list op) : N :=
+    match ops with
+    | [] => g
+    | o :: ops' => ghost_run (ghost g st o) (step shadowed c st o) ops'
+    end.
+
+  Local Opaque sched_att sched_prop sched_sync refresh_att refresh_prop refresh_sync tsched tremove
+        handle_altair_fork_epoch.
+
+  Lemma handle_altair_frame : forall st t n, is_sync n = false -> tget (handle_altair_fork_epoch c st t) n = tget t n.
+  Proof.
+    Local Transparent handle_altair_fork_epoch.
+    intros st t n H. unfold handle_altair_fork_epoch. destruct (st_altair st); cbn [negb]; [|reflexivity].
+    cbv zeta. destruct (_ <=? 5); rewrite ?sched_sync_frame by exact H; reflexivity.
+    Local Opaque handle_altair_fork_epoch.
+  Qed.
+
+  Lemma inv_advance : forall g st s, inv g st -> st_cur st <= s -> bounded s -> inv g (set_cur st s).
+  Proof.
+    intros g st s I Hs B. destruct I as [a1 a2 an p1 p2 pn p4 p3 b].
+    constructor; unfold att_slots, prop_slots in *; cbn; try assumption.
+    - intros s' H. apply a1 in H. lia.
+    - intros s' H. apply p1 in H. lia.
+    - intros s' H. apply p4 in H. pose proof (N.div_le_mono (st_cur st) s (ct_spe (c_ct c)) ltac:(lia) Hs). lia.
+    - destruct (N.eq_dec s (st_cur st)) as [->|Hne]; [exact p3|].
+      intros [H|H]; [apply p1 in H; lia|].
+      left. intro E. apply p4 in H.
+      pose proof (N.div_le_mono (st_cur st) s (ct_spe (c_ct c)) ltac:(lia) Hs) as Hm.
+      assert (Eq : s / ct_spe (c_ct c) = st_cur st / ct_spe (c_ct c)) by lia.
+      rewrite Eq in E.
+      pose proof (N.mul_div_le (st_cur st) (ct_spe (c_ct c)) ltac:(lia)). nia.
+  Qed.
+
+  Lemma inv_on_prev : forall g st, inv g st -> inv g (on_prev_changed c st).
+  Proof.
+    intros g st I. unfold on_prev_changed.
+    apply (inv_update g st); try reflexivity; [exact I | |]; cbn.
+    - intros s H. apply refresh_att_new in H. exact H.
+    - apply prop_step_same. intro s. apply refresh_att_frame. reflexivity.
+  Qed.
+
+  Lemma inv_on_cur : forall g st, inv g st -> inv g (on_cur_changed c st).
+  Proof.
+    intros g st I. unfold on_cur_changed.
+    apply (inv_update g st); try reflexivity; [exact I | |]; cbn.
+    - intros s H. apply refresh_att_new in H. destruct H as [H|H]; [|right; exact H]. left.
+      destruct (_ =? 0).
+      + rewrite refresh_sync_frame in H by reflexivity. rewrite refresh_prop_frame in H by reflexivity. exact H.
+      + rewrite refresh_prop_frame in H by reflexivity. exact H.
+    - intros s H. rewrite refresh_att_frame in H by reflexivity.
+      destruct (_ =? 0).
+      + rewrite refresh_sync_frame in H by reflexivity.
+        apply (refresh_prop_step (st_cur st) (st_env st) (st_jobs st) (i_b _ _ I)). exact H.
+      + apply (refresh_prop_step (st_cur st) (st_env st) (st_jobs st) (i_b _ _ I)). exact H.
+  Qed.
+
+  Lemma inv_head : forall g st slot pr cr, inv g st -> inv g (head_event c st slot pr cr).
+  Proof.
+    intros g st slot pr cr I. unfold head_event.
+    destruct (slot =? st_cur st) eqn:Es; cbn [negb]; [|exact I]. apply N.eqb_eq in Es.
+    destruct (reorg_decide _ _ _ _ _ _) as [dp dc].
+    match goal with |- context [if dp then on_prev_changed c ?s0 else ?s0] => set (st0 := s0) end.
+    assert (I0 : inv g st0).
+    { apply (inv_update g st); try reflexivity; [exact I | apply att_step_refl | apply prop_step_refl]. }
+    assert (I1 : inv g (if dp then on_prev_changed c st0 else st0)) by (destruct dp; [apply inv_on_prev|]; exact I0).
+    set (st1 := if dp then on_prev_changed c st0 else st0) in *.
+    assert (I2 : inv g (if dc then on_cur_changed c st1 else st1)) by (destruct dc; [apply inv_on_cur|]; exact I1).
+    set (st2 := if dc then on_cur_changed c st1 else st1) in *.
+    destruct (c_ft_att c); [|exact I2].
+    apply inv_run_att; [exact I2|].
+    assert (Ec : st_cur st2 = st_cur st).
+    { unfold st2, st1, st0. destruct dc, dp; reflexivity. }
+    rewrite Ec. lia.
+  Qed.
+
+  Lemma inv_tick : forall g st, inv g st ->
+    g < st_cur st / ct_spe (c_ct c) -> st_cur st = (st_cur st / ct_spe (c_ct c)) * ct_spe (c_ct c) ->
+    inv g (epoch_tick c st).
+  Proof.
+    intros g st I Hg Hfirst. unfold epoch_tick. unfold cur_epoch.
+    destruct (Z.of_N (st_cur st / ct_spe (c_ct c)) <=? st_tick st)%Z eqn:Et; [exact I|].
+    pose proof I as I0. destruct I as [a1 a2 an p1 p2 pn p4 p3 b].
+    assert (Hfree : ~ In (st_cur st) (prop_slots st) /\ tget (st_jobs st) (JProp (st_cur st)) = None).
+    { split.
+      - intro H. destruct (p3 (or_introl H)) as [H'|[H'|H']]; [contradiction | lia | lia].
+      - destruct (tget (st_jobs st) (JProp (st_cur st))) as [j|] eqn:G; [|reflexivity].
+        exfalso. assert (H : Some j <> None) by discriminate.
+        destruct (p3 (or_intror H)) as [H'|[H'|H']]; [contradiction | lia | lia]. }
+    destruct Hfree as [Hf1 Hf2].
+    match goal with |- inv g {| st_jobs := ?t3; st_cur := _; st_env := _; st_altair := _; st_altair_epoch := _;
+                              st_last_epoch := _; st_prev_root := _; st_cur_root := _; st_tick := _;
+                              st_att_log := _; st_prop_log := _ |} => set (T := t3) end.
+    assert (TA : forall s, tget T (JAtt s) = tget (st_jobs st) (JAtt s)).
+    { intro s. unfold T. rewrite tget_tsched. cbn [j_name jname_eqb].
+      assert (forall t, (match tget t (JAtt s) with Some x => Some x | None => None end) = tget t (JAtt s))
+        as Hm by (intro t; destruct (tget t (JAtt s)); reflexivity).
+      rewrite Hm. destruct (st_altair st); [|apply sched_prop_frame; reflexivity].
+      destruct (_ =? sub64 _ 5); [rewrite sched_sync_frame by reflexivity|];
+        (destruct (_ =? st_altair_epoch st); [rewrite handle_altair_frame by reflexivity|]);
+        apply sched_prop_frame; reflexivity. }
+    assert (TP : forall s, tget T (JProp s) <> None ->
+                           tget (st_jobs st) (JProp s) <> None \/ (st_cur st <= s /\ s / ct_spe (c_ct c) <= st_cur st / ct_spe (c_ct c))).
+    { intros s H. unfold T in H. rewrite tget_tsched in H. cbn [j_name jname_eqb] in H.
+      assert (H' : tget (sched_prop c (st_cur st) (e_vals (st_env st))
+                          (alookup (e_prop (st_env st)) (st_cur st / ct_spe (c_ct c)))
+                          (st_cur st / ct_spe (c_ct c)) false (st_jobs st)) (JProp s) <> None).
+      { destruct (st_altair st).
+        - destruct (_ =? sub64 _ 5); [rewrite sched_sync_frame in H by reflexivity|];
+            (destruct (_ =? st_altair_epoch st); [rewrite handle_altair_frame in H by reflexivity|]);
+            destruct (tget _ (JProp s)); try discriminate; contradiction.
+        - destruct (tget _ (JProp s)); [discriminate | contradiction]. }
+      apply sched_prop_new in H'. destruct H' as [H'|[H1 H2]]; [left; exact H'|].
+      right. apply due_spec in H1. split; [apply H1 | apply in_epoch_cur_epoch; assumption]. }
+    constructor; unfold att_slots, prop_slots in *; cbn; try assumption.
+    - intros s H. rewrite TA in H. apply a2. exact H.
+    - intros s H. destruct (TP s H) as [H'|[H1 H2]]; [apply p2; exact H'|].
+      destruct (N.eq_dec s (st_cur st)) as [->|Hne]; [exact Hf1|].
+      intro Hin. apply p1 in Hin. lia.
+    - intros s H. destruct (TP s H) as [H'|[H1 H2]]; [apply p4; exact H' | exact H2].
+    - intros _. right. left. lia.
+  Qed.
+
+  Lemma inv_start : forall g st, inv g st -> inv (st_cur st / ct_spe (c_ct c)) (start shadowed c st).
+  Proof.
+    intros g st I. unfold start. unfold cur_epoch.
+    destruct (altair_details shadowed c) as [handling ae].
+    pose proof I as I0. destruct I as [a1 a2 an p1 p2 pn p4 p3 b].
+    match goal with |- inv _ {| st_jobs := ?t4; st_cur := _; st_env := _; st_altair := _; st_altair_epoch := _;
+                              st_last_epoch := _; st_prev_root := _; st_cur_root := _; st_tick := _;
+                              st_att_log := _; st_prop_log := _ |} => set (T := t4) end.
+    set (T1 := sched_prop c (st_cur st) (e_vals (st_env st)) (alookup (e_prop (st_env st)) (st_cur st / ct_spe (c_ct c)))
+                 (st_cur st / ct_spe (c_ct c)) true []) in *.
+    set (T2 := sched_att c (st_cur st) (e_vals (st_env st)) (alookup (e_att (st_env st)) (st_cur st / ct_spe (c_ct c)))
+                 (st_cur st / ct_spe (c_ct c)) true T1) in *.
+    assert (TA : att_step (st_cur st) [] T).
+    { unfold T. eapply att_step_trans; [|apply sched_att_step_nc].
+      assert (A2 : att_step (st_cur st) [] T2).
+      { unfold T2. eapply att_step_trans; [|apply sched_att_step_nc].
+        apply att_step_same. intro s. apply sched_prop_frame. reflexivity. }
+      destruct handling; [|exact A2].
+      cbv zeta. destruct (_ <=? 5); (eapply att_step_trans; [exact A2|]); apply att_step_same; intro s;
+        rewrite ?sched_sync_frame by reflexivity; reflexivity. }
+    assert (TP : prop_step (st_cur st) (st_cur st / ct_spe (c_ct c)) [] T).
+    { unfold T. eapply prop_step_trans; [|apply prop_step_same; intro s; apply sched_att_frame; reflexivity].
+      assert (P2 : prop_step (st_cur st) (st_cur st / ct_spe (c_ct c)) [] T2).
+      { unfold T2. eapply prop_step_trans; [|apply prop_step_same; intro s; apply sched_att_frame; reflexivity].
+        apply sched_prop_step_nc. exact b. }
+      destruct handling; [|exact P2].
+      cbv zeta. destruct (_ <=? 5); (eapply prop_step_trans; [exact P2|]); apply prop_step_same; intro s;
+        rewrite ?sched_sync_frame by reflexivity; reflexivity. }
+    constructor; unfold att_slots, prop_slots in *; cbn; try assumption.
+    - intros s H. destruct (TA s H) as [H'|H']; [cbn in H'; contradiction|].
+      intro Hin. apply a1 in Hin. lia.
+    - intros s H. destruct (TP s H) as [H'|[H' _]]; [cbn in H'; contradiction|].
+      intro Hin. apply p1 in Hin. lia.
+    - intros s H. destruct (TP s H) as [H'|[_ H']]; [cbn in H'; contradiction | exact H'].
+    - intros _. right. right. lia.
+  Qed.
+
+  Lemma inv_set_jobs : forall g st t,
+    inv g st -> att_step (st_cur st) (st_jobs st) t ->
+    prop_step (st_cur st) (st_cur st / ct_spe (c_ct c)) (st_jobs st) t -> inv g (set_jobs st t).
+  Proof. intros g st t I A P. apply (inv_update g st); try reflexivity; assumption. Qed.
+
+  Lemma inv_fire : forall g st n h, inv g st -> op_ok g st (Fire n h) -> inv g (fire c st n h).
+  Proof.
+    intros g st n h I Hok. unfold fire. destruct (tget (st_jobs st) n) eqn:G; [|exact I].
+    destruct n as [s|s|s|e|s]; cbn [op_ok] in Hok.
+    - apply inv_run_att; assumption.
+    - apply inv_run_prop; assumption.
+    - assert (I1 : inv g (set_jobs st (tremove (st_jobs st) (JEarly s)))).
+      { apply inv_set_jobs; [exact I | |]; intros s' H; left; apply tremove_sub in H; exact H. }
+      destruct (h =? sub64 s 1); [|exact I1]. apply inv_run_prop; [exact I1 | exact Hok].
+    - destruct Hok as [Hlt Hb]. unfold prepare_for_epoch. cbn.
+      assert (I1 : inv g (set_jobs st (tremove (st_jobs st) (JPrep e)))).
+      { apply inv_set_jobs; [exact I | |]; intros s' H; left; apply tremove_sub in H; exact H. }
+      apply (inv_update g (set_jobs st (tremove (st_jobs st) (JPrep e)))); try reflexivity; [exact I1 | |]; cbn.
+      + apply sched_att_step_future; assumption.
+      + apply prop_step_same. intro s. apply sched_att_frame. reflexivity.
+    - apply inv_set_jobs; [exact I | |]; intros s' H; left; apply tremove_sub in H; exact H.
+  Qed.
+
+  Theorem inv_step : forall g st o, inv g st -> op_ok g st o -> inv (ghost g st o) (step shadowed c st o).
+  Proof.
+    intros g st o I Hok. destruct o; cbn [step ghost]; cbn [op_ok] in Hok; try contradiction.
+    - destruct Hok. apply inv_advance; assumption.
+    - apply (inv_update g st); try reflexivity; [exact I | apply att_step_refl | apply prop_step_refl].
+    - apply inv_start with (g := g). exact I.
+    - destruct Hok. apply inv_tick; assumption.
+    - apply inv_head. exact I.
+    - apply inv_fire; assumption.
+    - apply inv_set_jobs; [exact I | |].
+      + intros s H. apply refresh_att_new in H. exact H.
+      + apply prop_step_same. intro s. apply refresh_att_frame. reflexivity.
+    - subst epoch. apply inv_set_jobs; [exact I | |].
+      + apply att_step_same. intro s. apply refresh_prop_frame. reflexivity.
+      + apply refresh_prop_step. apply (i_b _ _ I).
+  Qed.
+
+  Theorem inv_run : forall ops g st, inv g st -> hist_ok g st ops ->
+    inv (ghost_run g st ops) (run shadowed c st ops).
+  Proof.
+    induction ops as [|o ops IH]; intros g st I H; [exact I|].
+    destruct H as [H1 H2]. unfold run. cbn [fold_left ghost_run]. apply IH; [|exact H2].
+    apply inv_step; assumption.
+  Qed.
+
+  (* a freshly built controller satisfies the invariant *)
+  Lemma inv_init : forall g h ae, bounded 0 -> inv g (init_state h ae).
+  Proof.
+    intros g h ae B. constructor; unfold att_slots, prop_slots; cbn.
+    - intros s [].
+    - intros s H. contradiction.
+    - constructor.
+    - intros s [].
+    - intros s H. contradiction.
+    - constructor.
+    - intros s H. contradiction.
+    - intros [[]|H]; contradiction.
+    - exact B.
+  Qed.
+End NoTwice.
